@@ -1007,7 +1007,7 @@ class _MiniIndex:
 
 def rule_tempreg(ctx):
     r = Rule('C37-TEMPREG', 'FunctionState: every temporary handed out while a collector is active is registered in the innermost collector; '
-             'start/stop_collecting_temps push and pop the same fresh collector', floor=20)
+             'start/stop_collecting_temps push and pop the same fresh collector', floor=150)
     ix = ctx.index
     fs = ix.cls('Code', 'FunctionState')
     attr, startfn, stopfn = collector_attr(ix, fs)
